@@ -31,12 +31,53 @@ func Assign(dst, src any) (ok bool) {
 // Walks other registered assign callbacks and try to execute each of them.
 // Stops when current callback return true.
 func AssignBuf(dst, src any, buf AccumulativeBuffer) (ok bool) {
+	if isNilSrc(src) {
+		// There is nothing to assign from; the callbacks dereference pointer sources.
+		return false
+	}
 	for _, fn := range assignFnRegistry {
 		if ok = fn(dst, src, buf); ok {
 			return
 		}
 	}
 	return
+}
+
+// Check if source is a typed nil pointer to one of the builtin types.
+func isNilSrc(src any) bool {
+	switch x := src.(type) {
+	case *[]byte:
+		return x == nil
+	case *string:
+		return x == nil
+	case *bool:
+		return x == nil
+	case *int:
+		return x == nil
+	case *int8:
+		return x == nil
+	case *int16:
+		return x == nil
+	case *int32:
+		return x == nil
+	case *int64:
+		return x == nil
+	case *uint:
+		return x == nil
+	case *uint8:
+		return x == nil
+	case *uint16:
+		return x == nil
+	case *uint32:
+		return x == nil
+	case *uint64:
+		return x == nil
+	case *float32:
+		return x == nil
+	case *float64:
+		return x == nil
+	}
+	return false
 }
 
 var _ = Assign
